@@ -1,7 +1,7 @@
 """Shared machinery of the chart-of-accounts checks (C30, and the chart half of C29).
 
-Specification: spec/Chart.tla (+ MC_Chart.tla, Chart_exh.cfg / Chart_def.cfg / Chart_sim.cfg /
-Chart_simL.cfg).  TLC checks the theorems of the spec on every generated chart and prints one CASE
+Specification: spec/Chart.tla (+ MC_Chart.tla, Chart_exh.cfg / Chart_exh4.cfg / Chart_def.cfg / Chart_def2.cfg /
+Chart_sim.cfg / Chart_simL.cfg).  TLC checks the theorems of the spec on every generated chart and prints one CASE
 per chart with the outcome the spec prescribes; the Go engine `vh-chart` (harness/chartcase) replays
 the cases through the real schema code.
 
@@ -13,7 +13,7 @@ Case format (what gen_chart_cases returns, and what is written one-JSON-per-line
             "alphabet": [...segments...], "fixed": [...], "varkeys": ["$v"], "badnames": [...],
             "patmatch": {"digits": ["7","42"], ...},   # abstract pattern name -> alphabet segments it matches
             "badpatterns": [...], "maxnodes": n, "maxdepth": n, "maxaddrlen": n,
-            "label": "exh"|"def"|"sim"|"simL"}         # which TLC run produced it (added here)
+            "label": "exh"|"def"|"def2"|"sim"|"simL"}         # which TLC run produced it (added here)
 
   case   = {"kind": "chart", "id": "<label>-<sha1[:12]>", "label": ..., "valid": bool,
             "nodes":  [{"p": [<json keys from the root>], "self": "absent"|"empty"|"junk",
@@ -52,11 +52,13 @@ PLAN = {
     "quick": [
         dict(label="exh", kind="bfs", cfg="Chart_exh.cfg", timeout=400),
         dict(label="def", kind="bfs", cfg="Chart_def.cfg", timeout=300),
+        dict(label="def2", kind="bfs", cfg="Chart_def2.cfg", timeout=300, workers=4),
         dict(label="sim", kind="sim", cfg="Chart_sim.cfg", procs=4, num=40, depth=12, timeout=400),
     ],
     "thorough": [
         dict(label="exh", kind="bfs", cfg="Chart_exh.cfg", timeout=900),
         dict(label="def", kind="bfs", cfg="Chart_def.cfg", timeout=600),
+        dict(label="def2", kind="bfs", cfg="Chart_def2.cfg", timeout=600, workers=4),
         # every valid chart with <= 4 nodes (depth <= 4): theorems only, no case emission
         dict(label="exh4", kind="bfs", cfg="Chart_exh4.cfg", timeout=2400, emit=False),
         dict(label="sim", kind="sim", cfg="Chart_sim.cfg", procs=6, num=150, depth=12, timeout=1200),
